@@ -2,10 +2,12 @@
 no rewrite rule, compiled by rustc against executable stubs and run on every scenario up to a stated bound."""
 import json
 import os
+import re
 import subprocess
 import time
 
 from . import unit as U
+from . import cut as C
 
 ROOT = os.path.dirname(os.path.dirname(os.path.abspath(__file__)))
 
@@ -26,6 +28,40 @@ def run(tier, build_dir, name="xsim"):
     open(src, "w").write(asm.text)
     out["items"] = {k: {"src": v["src"], "repo_lines": v["repo_lines"]} for k, v in asm.items.items()}
     p = subprocess.run(["rustc", "--edition", "2021", "-O", "-A", "warnings", src, "-o", binp], capture_output=True, text=True, timeout=600)
+    # helper functions that /repo introduced (a refactoring that extracts a method): the functions the compiler misses are
+    # cut from the same source files, with their enclosing impl header, and appended - still the real text, still no rule
+    added = []
+    rounds = 0
+    while p.returncode != 0 and rounds < 4:
+        rounds += 1
+        missing = set(re.findall(r"no (?:method|function or associated item) named `(\w+)` found", p.stderr))
+        missing |= set(re.findall(r"cannot find function `(\w+)` in", p.stderr))
+        missing -= set(added)
+        if not missing:
+            break
+        extra = []
+        srcs = sorted({v["src"] for v in asm.items.values()})
+        for fname in sorted(missing):
+            for rel in srcs:
+                try:
+                    text_src = open(os.path.join(U.REPO, rel)).read()
+                except OSError:
+                    continue
+                found = C.find_fn_with_context(text_src, fname)
+                if len(found) == 1:
+                    ftext, header = found[0]
+                    extra.append("// helper `%s` cut from %s (introduced in /repo after the stand-in was written)\n%s" % (
+                        fname, rel, ("%s {\n%s\n}" % (header, ftext)) if header else ftext))
+                    added.append(fname)
+                    break
+        if not extra:
+            break
+        text = open(src).read()
+        marker = "// ------------------------------------------------------------------ hierarchies"
+        text += "\n" + "\n".join(extra) + "\n"
+        open(src, "w").write(text)
+        p = subprocess.run(["rustc", "--edition", "2021", "-O", "-A", "warnings", src, "-o", binp], capture_output=True, text=True, timeout=600)
+    out["helpers_added"] = added
     if p.returncode != 0:
         errs = [ln for ln in p.stderr.split("\n") if ln.startswith("error")]
         out["undecided"] = name + " does not compile against the executable stubs: " + "; ".join(errs[:3])
